@@ -11,7 +11,7 @@ import struct
 from checks.c04 import int_values, real_values
 from harness import enc, tlc
 from harness.common import Verdict, main_wrapper, parse_args
-from harness.drv_bus import ARR_IDX, REC_IDX, TYPES, var_idx
+from harness.drv_bus import ARR_IDX, DOT_IDX, REC_IDX, TYPES, var_idx
 from harness.pool import run_cases
 
 PROP = "C03"
@@ -98,6 +98,14 @@ def gen_cases(tier, seed):
             ops += [dict(base, op="set", how=rng.choice(["index", "name", "dotted"]), v={"int": val}),
                     dict(base, op="local", how="index"),
                     dict(base, op="get", how=rng.choice(["index", "name", "dotted"]))]
+    # a variable whose name contains a dot, by name and by index
+    for val in (0, 1, 0xBEEF):
+        base = {"idx": DOT_IDX, "sub": 0, "t": 0x6}
+        ops += [dict(base, op="set", how="name", v={"int": val}), dict(base, op="local", how="index"),
+                dict(base, op="get", how=rng.choice(["name", "index"]))]
+    # UNICODE strings that begin / end with byte-order-mark code points
+    for sval in ("\ufeffabc", "\ufffeab", "ab\ufeff", "\ufeff", "\ufffe\ufeffx"):
+        ops += triple(rng, enc.USTR, sval)
     cases.append({"mode": "inline", "nodes": [9], "ops": {"9": ops}, "noise": True, "seed": 1})
     # (ii) dispatcher thread with seeded delays, (iii) python-can virtual bus: 1..8 client threads
     small = [(dt, val) for dt, val in pool if not isinstance(val, (str, bytes)) or len(val) <= 40]
